@@ -216,6 +216,8 @@ func C11(p *load.Prog, r *oblig.Run) {
 	sentSides(p, r, "R11.d", "R11.e", concurrentRegion(g, root))
 	r.Rule("R11.i", "every mutex taken in the matching pipeline is released on every path", 1)
 	lockPairing(p, r, "R11.i", map[string]bool{load.PkgRoot: true, load.PkgUtil: true})
+	r.Rule("R11.j", "a loop that starts at the worker number advances by the number of workers", 2)
+	strideMatchesWorkers(p, r, "R11.j", concurrentRegion(g, root))
 	r.Rule("R11.f", "util.WorkerPool starts exactly the requested number of workers", 1)
 	workerCount(p, r, "R11.f")
 	r.Rule("R11.g", "a pipeline stage's goroutine does nothing after closing the channel the stage returned", 3)
